@@ -50,9 +50,12 @@ func hexDecode(s string) ([]byte, error) {
 }
 
 func checkC05(c *Ctx) {
-	c.rule = "encrypt side: random (plaintext size incl. every chunk boundary class, recipient list over all four native types + stubs, armor, tape): the implementation's file must equal, byte for byte, the file the model computes from the same values. decrypt side: the frozen corpus (all four recipient types x sizes {0,1,cs-1,cs,cs+1,2cs-1,2cs,2cs+1} (x25519) / {0,1,cs,cs+1} (others) x binary/armored, plus files to all three public-key types in every order opened by each identity, SHA-256 of each plaintext recorded when frozen) must decrypt with implementation and model; the model alone must give the prescribed verdict on all 114 CCTV vectors; files WRITTEN by the model must decrypt with the implementation. distinct_nontrivial = distinct files."
+	c.rule = "encrypt side: random (plaintext size incl. every chunk boundary class, recipient list over all four native types + stubs, armor, tape): the implementation's file must equal, byte for byte, the file the model computes from the same values. primitives: SHA-256, HMAC, HKDF, ChaCha20-Poly1305 seal/open (honest, bit-flipped, truncated, shifted), scrypt (logN 1-6), X25519 (honest, random, low-order, non-canonical, wrong length) of Crypto.v against crypto/* and golang.org/x/crypto on random inputs; whole files with every primitive but RSA evaluated in Gallina. decrypt side: the frozen corpus (all four recipient types x sizes {0,1,cs-1,cs,cs+1,2cs-1,2cs,2cs+1} (x25519) / {0,1,cs,cs+1} (others) x binary/armored, plus files to all three public-key types in every order opened by each identity, SHA-256 of each plaintext recorded when frozen) must decrypt with implementation and model; the model alone must give the prescribed verdict on all 114 CCTV vectors; files WRITTEN by the model must decrypt with the implementation. distinct_nontrivial = distinct files."
 	// (0) model against the specification's vectors
 	c.cctvValidate()
+	// (0') the primitives written in Gallina against the libraries age calls; whole files with them
+	c.cryptoCorrespondence(c.vol(40, 600), c.vol(6, 60))
+	c.gallinaFiles(c.vol(3, 30), c.vol(1, 8))
 	// (a) encrypt side
 	n := c.vol(40, 1500)
 	for i := 0; i < n; i++ {
